@@ -2,6 +2,8 @@ package sm3ref
 
 import (
 	"encoding/hex"
+	"encoding/json"
+	"os"
 	"testing"
 )
 
@@ -19,4 +21,26 @@ func TestVectors(t *testing.T) {
 			t.Fatalf("sm3ref(%s) = %x want %s", c.msg, got, c.want)
 		}
 	}
+}
+
+// Static third-party vectors (OpenSSL 3.5 dgst -sm3; lengths 0..300 and some long ones).
+func TestOpenSSLVectors(t *testing.T) {
+	b, err := os.ReadFile("../../../vectors/sm3_openssl.json")
+	if err != nil {
+		t.Skip("vectors not found: ", err)
+	}
+	var f struct {
+		Vectors []struct{ Msg, Digest string }
+	}
+	if err := json.Unmarshal(b, &f); err != nil {
+		t.Fatal(err)
+	}
+	for _, v := range f.Vectors {
+		m, _ := hex.DecodeString(v.Msg)
+		got := Sum(m)
+		if hex.EncodeToString(got[:]) != v.Digest {
+			t.Fatalf("len %d: %x want %s", len(m), got, v.Digest)
+		}
+	}
+	t.Logf("%d OpenSSL SM3 vectors agree", len(f.Vectors))
 }
